@@ -148,7 +148,7 @@ def _topo(k, edges):
 
 
 def real_headers(rng, names, edges, funcs_only, force_hidden=False):
-    funcs_only, enum_only = funcs_only if isinstance(funcs_only, tuple) else (funcs_only, set())
+    funcs_only, enum_only, consts_only = (tuple(funcs_only) + (set(),))[:3] if isinstance(funcs_only, tuple) else (funcs_only, set(), set())
     """One header per library.  Layout: an independent base class first, then the includes of every
     dependency, then the classes/typedefs that realise the edges -- this supports arbitrary graphs, cycles included.
     In acyclic graphs a class may also derive from (or name) a *derived* class of the dependency, so that
@@ -163,7 +163,9 @@ def real_headers(rng, names, edges, funcs_only, force_hidden=False):
         U = names[u].capitalize()
         out = ["#ifndef %s_H" % U.upper(), "#define %s_H" % U.upper()]
         deps = sorted(v for (a, v) in edges if a == u)
-        if u in enum_only:
+        if u in consts_only:
+            out += ["__begin_publish", "#define %s_MAX_THINGS 42" % U.upper(), "#define %s_FLAG 0x10" % U.upper(), "__end_publish"]
+        elif u in enum_only:
             out += ["__begin_publish", "enum %s_Enum { %s_a = 1, %s_b = 2 };" % (U, U, U), "__end_publish"]
         elif u in funcs_only:
             out += ["__begin_publish", "int %s_only_function(int a);" % names[u], "__end_publish"]
@@ -195,7 +197,7 @@ def real_headers(rng, names, edges, funcs_only, force_hidden=False):
 
 def synth_dbs(rng, names, edges, funcs_only):
     """Synthetic databases for the same graph shape (cheap, allows larger graphs)."""
-    funcs_only, enum_only = funcs_only if isinstance(funcs_only, tuple) else (funcs_only, set())
+    funcs_only, enum_only, consts_only = (tuple(funcs_only) + (set(),))[:3] if isinstance(funcs_only, tuple) else (funcs_only, set(), set())
     k = len(names)
     dbs = []
     for u in range(k):
@@ -211,7 +213,12 @@ def synth_dbs(rng, names, edges, funcs_only):
                     "outer_class": 0, "atomic_token": 0, "wrapped_type": wrapped, "array_size": 1, "constructors": [], "destructor": 0,
                     "elements": [], "methods": [], "make_seqs": [], "casts": [], "derivations": [{"flags": 0, "base": b, "upcast": 0, "downcast": 0} for b in derivs],
                     "enum_values": [], "nested_types": [], "comment": b""}
-        if u in enum_only:
+        manifests = {}
+        if u in consts_only:
+            fn = {}
+            manifests = {1: {"name": ("%s_MAX" % U).encode(), "alt_names": [], "flags": 0x4, "int_value": 42, "type": 0, "getter": 0, "definition": b"42"}}
+            idx = 2
+        elif u in enum_only:
             fn = {}
             idx = 1
             types[idx] = mk("%s_Enum" % U, "%s_Enum" % U, 0x1 | 0x80000 | F.TF_FULLY_DEFINED)
@@ -242,7 +249,7 @@ def synth_dbs(rng, names, edges, funcs_only):
             types[first_type]["make_seqs"] = [idx]
             idx += 1
         dbs.append({"file_identifier": 7, "major": 3, "minor": 3, "library_name": U.encode(), "library_hash_name": b"hhhh", "module_name": MODULE.encode(),
-                    "functions": fn, "wrappers": {}, "types": types, "manifests": {}, "elements": {}, "make_seqs": seqs})
+                    "functions": fn, "wrappers": {}, "types": types, "manifests": manifests, "elements": {}, "make_seqs": seqs})
     return dbs
 
 
@@ -279,7 +286,8 @@ def generate(ctx):
         if kind == "dense-cycle":
             fault = None
         plans.append({"id": i, "variant": variant, "k": k, "graph": kind, "gseed": rng.next(), "perms": [list(p) for p in perms], "fault": fault,
-                      "funcs_only": [x for x in range(k) if rng.chance(1, 10) and kind != "dense-cycle"], "enum_only": [x for x in range(k) if rng.chance(1, 10) and kind != "dense-cycle"], "mode": rng.choice(["native"] * 5 + ["python", "c", "default"]), "extra": rng.choice([[], [], ["-python"], ["-track-interpreter"], ["-import", "other.mod"], ["-init", "extra_init"]])})
+                      "funcs_only": [x for x in range(k) if rng.chance(1, 10) and kind != "dense-cycle"], "enum_only": [x for x in range(k) if rng.chance(1, 10) and kind != "dense-cycle"],
+                      "consts_only": [x for x in range(k) if rng.chance(1, 12) and kind != "dense-cycle"], "mode": rng.choice(["native"] * 5 + ["python", "c", "default"]), "extra": rng.choice([[], [], ["-python"], ["-track-interpreter"], ["-import", "other.mod"], ["-init", "extra_init"]])})
     return plans
 
 
@@ -328,6 +336,10 @@ def model_graph(dbs):
         lib = mc.owner[("functions", i)][0]
         if lib:
             libs.add(lib.decode())
+    for i, man in mc.recs["manifests"].items():
+        lib, mod = mc.owner[("manifests", i)]
+        if lib and mod.decode() == MODULE:
+            libs.add(lib.decode())      # published constants are added to the module by the library's BuildInstants
     edges = set()
     for i, t in mc.recs["types"].items():
         lib, mod = mc.owner[("types", i)]
@@ -369,11 +381,12 @@ def execute(plan):
     rng = Rng(plan["gseed"])
     k = plan["k"]
     names = lib_names(rng, k)
-    enum_only = set(plan.get("enum_only", []))
-    funcs_only = set(plan["funcs_only"]) - enum_only
+    consts_only = set(plan.get("consts_only", []))
+    enum_only = set(plan.get("enum_only", [])) - consts_only
+    funcs_only = set(plan["funcs_only"]) - enum_only - consts_only
     # a library that contributes only free functions, or only a published enum, takes part in no edge
-    edges = set(e for e in gen_graph(rng, k, plan["graph"]) if not ({e[0], e[1]} & (funcs_only | enum_only)))
-    funcs_only = (funcs_only, enum_only)
+    edges = set(e for e in gen_graph(rng, k, plan["graph"]) if not ({e[0], e[1]} & (funcs_only | enum_only | consts_only)))
+    funcs_only = (funcs_only, enum_only, consts_only)
     root = runner.fresh_dir("ms-%d-%016x" % (os.getpid(), fnv1a(json.dumps(plan, sort_keys=True))))
     env = {"PATH": "/usr/bin:/bin", "LC_ALL": "C", "SOURCE_DATE_EPOCH": "1"}
     violations, harness_faults = [], []
